@@ -785,4 +785,231 @@ example : versionField [0xe7, 0, 0, 0, 0, 1, 4, 1, 5, 0, 0, 0, 1, 0xff, 0, 0, 0x
     decodePacket 0 [0xe7, 0, 0, 0, 0, 1, 4, 1, 5, 0, 0, 0, 1, 0xff, 0, 0, 0x1d] =
       .ok (.versionNegotiation 0xe7 [4] [5] [0, 0, 0, 1, 0xff, 0, 0, 0x1d], []) := ⟨by decide, by rfl⟩
 
+/-! ### round trips: what the encoders emit decodes back to the same header fields, occupying exactly
+    the bytes written.  `encodePacket h cap 0 0 pn la payload` is `PacketEncoder::encode_packet` under
+    `crypto::testing::{Key, HeaderKey}` (the D harness drives exactly this); the Length field is written
+    through the placeholder (`encode_updated`: possibly a non-minimal varint). -/
+
+open Quic.Codec
+theorem header_roundtrip_initial (n cap v pn la : Nat) (d s tok payload bytes : List Nat)
+    (hv0 : v ≠ 0) (hv : v < 4294967296) (hd : d.length ≤ 255) (hs : s.length ≤ 255) (hcap : cap ≤ VarInt.maxValue)
+    (he : encodePacket (.initial v d s tok) cap 0 0 pn la payload = .ok bytes) :
+    ∃ t, PacketNumber.truncate pn la = some t ∧ bytes.length ≤ cap ∧
+      decodePacket n bytes = .ok (.initial v d s tok
+        (bytes.length - (PacketNumber.bytesize t.len + payload.length)) bytes.length, []) ∧
+      bytes.drop (bytes.length - (PacketNumber.bytesize t.len + payload.length))
+        = PacketNumber.encodeTruncated t ++ payload := by
+  obtain ⟨t, hdr, ht, hh, hp0, hfit, hbytes⟩ := encodePacket_ok_inv he
+  have hl3 := truncate_len_le pn la t ht
+  simp only [Hdr.isLong, if_true] at hfit hbytes
+  have hhdr : hdr = (192 + t.len) :: (be32 v ++ ((d.length :: d) ++ ((s.length :: s) ++ (VarInt.encode tok.length ++ tok)))) := by
+    simp only [encodeHeader, encodeLongHeader, lenPrefixU8, if_pos hd, if_pos hs, initialTag,
+      PacketNumber.intoPacketTagMask, Option.some.injEq] at hh
+    rw [← hh]; simp [List.append_assoc]
+  have hbl : (PacketNumber.encodeTruncated t ++ payload).length = PacketNumber.bytesize t.len + payload.length := by
+    rw [List.length_append, encodeTruncated_length]
+  have hmx : placeholderValue (cap - hdr.length) = cap - hdr.length := by
+    unfold placeholderValue; rw [if_pos (by omega)]
+  have hdec : VarInt.decode (encodeUpdated (placeholderValue (cap - hdr.length)) (PacketNumber.bytesize t.len + payload.length)
+      ++ (PacketNumber.encodeTruncated t ++ payload)) =
+      some ((PacketNumber.encodeTruncated t ++ payload).length, PacketNumber.encodeTruncated t ++ payload) := by
+    rw [hbl]
+    apply encodeUpdated_roundtrip
+    · rw [hmx]; omega
+    · rw [hmx]; omega
+  have htok : tok.length ≤ VarInt.maxValue := by
+    have : tok.length ≤ hdr.length := by rw [hhdr]; simp; omega
+    omega
+  have hshape : bytes = longLayout (192 + t.len) v d s (VarInt.encode tok.length ++ (tok ++
+      (encodeUpdated (placeholderValue (cap - hdr.length)) (PacketNumber.bytesize t.len + payload.length)
+        ++ (PacketNumber.encodeTruncated t ++ payload)))) := by
+    rw [hbytes, hhdr, be32_eq]; simp [longLayout, List.append_assoc]
+  refine ⟨t, ht, ?_, ?_, ?_⟩
+  · rw [hbytes, List.length_append, List.length_append, hbl]
+    rw [encodeUpdated_length]
+    omega
+  · rw [hshape, decodePacket_layout n _ v d s _ (by omega) (by omega) hv, if_neg hv0, if_neg (by omega), if_pos (by omega),
+      decodeInitial_layout v _ v d s tok _ _ htok hdec, hbl]
+  · rw [hbytes, ← List.append_assoc, ← hbl]
+    exact drop_suffix_len _ _
+
+theorem header_roundtrip_zeroRtt (n cap v pn la : Nat) (d s payload bytes : List Nat)
+    (hv0 : v ≠ 0) (hv : v < 4294967296) (hd : d.length ≤ 20) (hs : s.length ≤ 20) (hcap : cap ≤ VarInt.maxValue)
+    (he : encodePacket (.zeroRtt v d s) cap 0 0 pn la payload = .ok bytes) :
+    ∃ t, PacketNumber.truncate pn la = some t ∧ bytes.length ≤ cap ∧
+      decodePacket n bytes = .ok (.zeroRtt v d s
+        (bytes.length - (PacketNumber.bytesize t.len + payload.length)) bytes.length, []) ∧
+      bytes.drop (bytes.length - (PacketNumber.bytesize t.len + payload.length))
+        = PacketNumber.encodeTruncated t ++ payload := by
+  obtain ⟨t, hdr, ht, hh, hp0, hfit, hbytes⟩ := encodePacket_ok_inv he
+  have hl3 := truncate_len_le pn la t ht
+  simp only [Hdr.isLong, if_true] at hfit hbytes
+  have hhdr : hdr = (208 + t.len) :: (be32 v ++ ((d.length :: d) ++ (s.length :: s))) := by
+    simp only [encodeHeader, encodeLongHeader, lenPrefixU8, if_pos (show d.length ≤ 255 by omega),
+      if_pos (show s.length ≤ 255 by omega), zeroRttTag, PacketNumber.intoPacketTagMask, Option.some.injEq] at hh
+    rw [← hh]; simp [List.append_assoc]
+  have hbl : (PacketNumber.encodeTruncated t ++ payload).length = PacketNumber.bytesize t.len + payload.length := by
+    rw [List.length_append, encodeTruncated_length]
+  have hmx : placeholderValue (cap - hdr.length) = cap - hdr.length := by
+    unfold placeholderValue; rw [if_pos (by omega)]
+  have hdec : VarInt.decode (encodeUpdated (placeholderValue (cap - hdr.length)) (PacketNumber.bytesize t.len + payload.length)
+      ++ (PacketNumber.encodeTruncated t ++ payload)) =
+      some ((PacketNumber.encodeTruncated t ++ payload).length, PacketNumber.encodeTruncated t ++ payload) := by
+    rw [hbl]
+    apply encodeUpdated_roundtrip
+    · rw [hmx]; omega
+    · rw [hmx]; omega
+  have hshape : bytes = longLayout (208 + t.len) v d s
+      (encodeUpdated (placeholderValue (cap - hdr.length)) (PacketNumber.bytesize t.len + payload.length)
+        ++ (PacketNumber.encodeTruncated t ++ payload)) := by
+    rw [hbytes, hhdr, be32_eq]; simp [longLayout, List.append_assoc]
+  refine ⟨t, ht, ?_, ?_, ?_⟩
+  · rw [hbytes, List.length_append, List.length_append, hbl, encodeUpdated_length]
+    omega
+  · rw [hshape, decodePacket_layout n _ v d s _ (by omega) (by omega) hv, if_neg hv0, if_neg (by omega)]
+    rw [if_neg (by omega), if_pos (by omega)]
+    unfold decodeZeroRtt
+    rw [decodeLongPlain_layout _ _ v d s _ _ hd hs hdec, hbl]
+  · rw [hbytes, ← List.append_assoc, ← hbl]
+    exact drop_suffix_len _ _
+
+theorem header_roundtrip_handshake (n cap v pn la : Nat) (d s payload bytes : List Nat)
+    (hv0 : v ≠ 0) (hv : v < 4294967296) (hd : d.length ≤ 20) (hs : s.length ≤ 20) (hcap : cap ≤ VarInt.maxValue)
+    (he : encodePacket (.handshake v d s) cap 0 0 pn la payload = .ok bytes) :
+    ∃ t, PacketNumber.truncate pn la = some t ∧ bytes.length ≤ cap ∧
+      decodePacket n bytes = .ok (.handshake v d s
+        (bytes.length - (PacketNumber.bytesize t.len + payload.length)) bytes.length, []) ∧
+      bytes.drop (bytes.length - (PacketNumber.bytesize t.len + payload.length))
+        = PacketNumber.encodeTruncated t ++ payload := by
+  obtain ⟨t, hdr, ht, hh, hp0, hfit, hbytes⟩ := encodePacket_ok_inv he
+  have hl3 := truncate_len_le pn la t ht
+  simp only [Hdr.isLong, if_true] at hfit hbytes
+  have hhdr : hdr = (224 + t.len) :: (be32 v ++ ((d.length :: d) ++ (s.length :: s))) := by
+    simp only [encodeHeader, encodeLongHeader, lenPrefixU8, if_pos (show d.length ≤ 255 by omega),
+      if_pos (show s.length ≤ 255 by omega), handshakeTag, PacketNumber.intoPacketTagMask, Option.some.injEq] at hh
+    rw [← hh]; simp [List.append_assoc]
+  have hbl : (PacketNumber.encodeTruncated t ++ payload).length = PacketNumber.bytesize t.len + payload.length := by
+    rw [List.length_append, encodeTruncated_length]
+  have hmx : placeholderValue (cap - hdr.length) = cap - hdr.length := by
+    unfold placeholderValue; rw [if_pos (by omega)]
+  have hdec : VarInt.decode (encodeUpdated (placeholderValue (cap - hdr.length)) (PacketNumber.bytesize t.len + payload.length)
+      ++ (PacketNumber.encodeTruncated t ++ payload)) =
+      some ((PacketNumber.encodeTruncated t ++ payload).length, PacketNumber.encodeTruncated t ++ payload) := by
+    rw [hbl]
+    apply encodeUpdated_roundtrip
+    · rw [hmx]; omega
+    · rw [hmx]; omega
+  have hshape : bytes = longLayout (224 + t.len) v d s
+      (encodeUpdated (placeholderValue (cap - hdr.length)) (PacketNumber.bytesize t.len + payload.length)
+        ++ (PacketNumber.encodeTruncated t ++ payload)) := by
+    rw [hbytes, hhdr, be32_eq]; simp [longLayout, List.append_assoc]
+  refine ⟨t, ht, ?_, ?_, ?_⟩
+  · rw [hbytes, List.length_append, List.length_append, hbl, encodeUpdated_length]
+    omega
+  · rw [hshape, decodePacket_layout n _ v d s _ (by omega) (by omega) hv, if_neg hv0, if_neg (by omega)]
+    rw [if_neg (by omega), if_neg (by omega), if_pos (by omega)]
+    unfold decodeHandshake
+    rw [decodeLongPlain_layout _ _ v d s _ _ hd hs hdec, hbl]
+  · rw [hbytes, ← List.append_assoc, ← hbl]
+    exact drop_suffix_len _ _
+
+theorem header_roundtrip_short (cap spin phase pn la : Nat) (d payload bytes : List Nat)
+    (hspin : spin ≤ 1) (hphase : phase ≤ 1) (hd : d.length ≤ 20)
+    (he : encodePacket (.short spin phase d) cap 0 0 pn la payload = .ok bytes) :
+    ∃ t, PacketNumber.truncate pn la = some t ∧ bytes.length ≤ cap ∧
+      decodePacket d.length bytes = .ok (.short spin d (1 + d.length) bytes.length, []) ∧
+      bytes.drop (1 + d.length) = PacketNumber.encodeTruncated t ++ payload ∧
+      bytes.head? = some (64 + 32 * spin + 4 * phase + t.len) := by
+  obtain ⟨t, hdr, ht, hh, hp0, hfit, hbytes⟩ := encodePacket_ok_inv he
+  have hl3 := truncate_len_le pn la t ht
+  simp only [Hdr.isLong, Bool.false_eq_true, if_false, List.nil_append, Nat.add_zero] at hfit hbytes
+  have hfirst : (shortEncodingTag + (if spin = 1 then spinBitMask else 0) + (if phase = 1 then keyPhaseMask else 0)
+      + PacketNumber.intoPacketTagMask t.len) = 64 + 32 * spin + 4 * phase + t.len := by
+    unfold shortEncodingTag spinBitMask keyPhaseMask PacketNumber.intoPacketTagMask
+    have : spin = 0 ∨ spin = 1 := by omega
+    have : phase = 0 ∨ phase = 1 := by omega
+    rcases ‹spin = 0 ∨ spin = 1› with h | h <;> rcases ‹phase = 0 ∨ phase = 1› with h' | h' <;> simp [h, h']
+  have hhdr : hdr = (64 + 32 * spin + 4 * phase + t.len) :: d := by
+    simp only [encodeHeader, encodeShortHeader, Option.some.injEq] at hh
+    rw [← hh, hfirst]
+  have hbl : (PacketNumber.encodeTruncated t ++ payload).length = PacketNumber.bytesize t.len + payload.length := by
+    rw [List.length_append, encodeTruncated_length]
+  have hshape : bytes = (64 + 32 * spin + 4 * phase + t.len) :: (d ++ (PacketNumber.encodeTruncated t ++ payload)) := by
+    rw [hbytes, hhdr]; simp
+  refine ⟨t, ht, ?_, ?_, ?_, ?_⟩
+  · rw [hbytes, List.length_append, hbl]; omega
+  · rw [hshape, decodePacket_shortForm _ _ _ (by omega) (by omega), if_pos (by omega), decodeShort_spec,
+      if_neg (by simp), if_neg (by omega)]
+    have hspin' : spinOf (64 + 32 * spin + 4 * phase + t.len) = spin := by
+      unfold spinOf
+      have : spin = 0 ∨ spin = 1 := by omega
+      rcases this with h | h <;> subst h <;> split <;> omega
+    rw [hspin', List.take_left']
+    · simp only [List.length_cons]
+    · rfl
+  · rw [hshape]
+    simp only [Nat.add_comm 1, List.drop_succ_cons, List.drop_left]
+  · rw [hshape]; rfl
+
+theorem header_roundtrip_vn (n tag : Nat) (d s sup bytes : List Nat) (htag : tag < 256)
+    (hd : d.length ≤ 20) (hs : s.length ≤ 20) (h4 : 4 ≤ sup.length) (hm : sup.length % 4 = 0)
+    (he : encodeVn tag d s sup = some bytes) :
+    decodePacket n bytes = .ok (.versionNegotiation (tag ||| 192) d s sup, []) ∧
+      bytes.length = 7 + d.length + s.length + sup.length := by
+  have hor := or_c0 tag htag
+  have hf : (tag ||| 192) < 256 := by omega
+  have hform : (tag ||| 192) / 128 % 2 = 1 := by omega
+  have hshape : bytes = longLayout (tag ||| 192) 0 d s sup := by
+    simp only [encodeVn, lenPrefixU8, if_pos (show d.length ≤ 255 by omega), if_pos (show s.length ≤ 255 by omega),
+      vnEncodingTag, vnVersion, Option.some.injEq] at he
+    rw [← he, be32_eq]; simp [longLayout, List.append_assoc]
+  constructor
+  · rw [hshape, decodePacket_layout n _ 0 d s _ hf hform (by omega), if_pos rfl]
+    unfold longLayout
+    rw [decodeVn_eq _ _ _ _ _ _ _ rfl, cid?_append]
+    simp only []
+    rw [if_pos hd, cid?_append]
+    simp only []
+    rw [if_pos hs, if_neg (by omega), if_neg (by omega)]
+  · rw [hshape]; simp [longLayout]; omega
+
+theorem header_roundtrip_retry (n tag v : Nat) (d s tok itag bytes : List Nat) (htag : tag < 256) (hty : tag / 16 = 15)
+    (hv0 : v ≠ 0) (hv : v < 4294967296) (hd : d.length ≤ 20) (hs : s.length ≤ 20) (htok : 0 < tok.length)
+    (hitag : itag.length = 16) (he : encodeRetry tag v d s tok itag = some bytes) :
+    decodePacket n bytes = .ok (.retry tag v d s tok itag, []) ∧
+      bytes.length = 7 + d.length + s.length + tok.length + 16 := by
+  have hshape : bytes = longLayout tag v d s (tok ++ itag) := by
+    simp only [encodeRetry, lenPrefixU8, if_pos (show d.length ≤ 255 by omega), if_pos (show s.length ≤ 255 by omega),
+      Option.some.injEq] at he
+    rw [← he, be32_eq]; simp [longLayout, List.append_assoc]
+  constructor
+  · rw [hshape, decodePacket_layout n _ v d s _ htag (by omega) hv, if_neg hv0, if_neg (by omega), if_neg (by omega),
+      if_neg (by omega), if_neg (by omega)]
+    unfold longLayout
+    rw [decodeRetry_eq _ _ _ _ _ _ _ _ rfl, cid?_append]
+    simp only []
+    rw [if_pos hd, cid?_append]
+    simp only []
+    have hlen : (tok ++ itag).length - 16 = tok.length := by rw [List.length_append]; omega
+    rw [if_pos hs, if_pos (by rw [List.length_append]; omega), hlen, List.take_left', List.drop_left']
+    · rfl
+    · rfl
+  · rw [hshape]; simp [longLayout]; omega
+
+
+/-! non-vacuity of the round-trip hypotheses: the encoders succeed on concrete inputs, and the bytes are
+    the ones the REAL `encode_packet` / `encode` produced for the same arguments in the D harness
+    (`enc initial 1200 1 0102030405060708 0a0b 77 5 0 000102…1b` → `c000000001080102030405060708020a0b0177401d05 00…1b`:
+    the Length field `401d` is the 2-byte placeholder holding 29 = 1 packet-number byte + 28 payload bytes) -/
+example : encodePacket (.initial 1 [1, 2, 3, 4, 5, 6, 7, 8] [10, 11] [0x77]) 1200 0 0 5 0 (List.range 28) =
+    .ok ([0xc0, 0, 0, 0, 1, 8, 1, 2, 3, 4, 5, 6, 7, 8, 2, 10, 11, 1, 0x77, 0x40, 0x1d, 5] ++ List.range 28) := by rfl
+example : encodePacket (.handshake 1 [1, 2, 3, 4, 5, 6, 7, 8] [10, 11]) 100 0 0 300 0 (List.range 28) =
+    .ok ([0xe1, 0, 0, 0, 1, 8, 1, 2, 3, 4, 5, 6, 7, 8, 2, 10, 11, 0x40, 0x1e, 1, 0x2c] ++ List.range 28) := by rfl
+example : encodePacket (.short 1 1 [1, 2, 3, 4]) 1200 0 0 70000 3 (List.range 28) =
+    .ok ([0x66, 1, 2, 3, 4, 1, 0x11, 0x70] ++ List.range 28) := by rfl
+example : encodeVn 0 [1, 2] [3, 4, 5, 6] [0, 0, 0, 1, 0, 0, 0, 10] =
+    some [0xc0, 0, 0, 0, 0, 2, 1, 2, 4, 3, 4, 5, 6, 0, 0, 0, 1, 0, 0, 0, 10] := by decide
+example : encodeRetry 0xff 1 [1, 2] [3, 4] [0xaa, 0xbb] (List.range 16) =
+    some ([0xff, 0, 0, 0, 1, 2, 1, 2, 2, 3, 4, 0xaa, 0xbb] ++ List.range 16) := by decide
+
 end Quic.Proofs.C05
